@@ -291,7 +291,7 @@ DenoteElem(lx, g) ==
 (*        scopes, cd]                                                      *)
 (*     generated (tomof returned), accepted (the compiler accepted), lit,  *)
 (*     declared (instance events: class-declared properties not given)     *)
-(*     sess            "" | "prime" | "declare" | "use": step of a         *)
+(*     sess            "" | "prime" | "declare" | "use" | "inst": step of a*)
 (*                     compiler SESSION (MofTextDecl.tla Part B: one       *)
 (*                     MOFCompiler,                                        *)
 (*                     one namespace, a history of declarations and        *)
@@ -299,6 +299,10 @@ DenoteElem(lx, g) ==
 (*                     qualifier name for qualifier values / declarations  *)
 (* op = "prime": the harness put a declaration into the repository         *)
 (*     directly (orig = its one element); state update only                *)
+(* op = "fail":  step fail(k) of a session (MofTextDecl.tla Part B): a     *)
+(*     text that is not valid MOF was compiled on the session's compiler;  *)
+(*     kind = k, rejected = the compiler raised an error.  Events of the   *)
+(*     session step inst(k) are "obj" events with sess = "inst".           *)
 (*                                                                         *)
 (* State of the requirement machine: the qualifier declarations of the     *)
 (* session - cur: the one that is in the repository for each name now      *)
@@ -495,6 +499,11 @@ Fails(s, e) ==
   ELSE IF e.op = "obj" THEN (IF e.sess = "" THEN ObjFails(e)
                              ELSE SessFails(s, e))
   ELSE IF e.op = "prime" /\ e.sess = "prime" THEN {}
+  \* a text that is not valid MOF was given to the session's compiler: part
+  \* of the history, nothing to judge (if it was NOT rejected the history is
+  \* not the one the specification describes)
+  ELSE IF e.op = "fail" /\ e.sess = "fail"
+  THEN (IF e.rejected THEN {} ELSE {"UnknownEvent"})
   ELSE {"UnknownEvent"}
 
 (* binding of the transcription (impl drift, never a violation) *)
